@@ -53,6 +53,12 @@ var (
 	obligTimeoutMS = 3000
 	raceTimeoutMS  = 90000
 	dumpDir        = os.Getenv("SSASYM_DUMP")
+	dumpThreshold  = func() time.Duration {
+		if v, err := time.ParseDuration(os.Getenv("SSASYM_DUMP_OVER")); err == nil {
+			return v
+		}
+		return 2 * time.Second
+	}()
 )
 
 func NewSolver() *Solver {
@@ -230,7 +236,7 @@ func (s *Solver) Check(conj []*Term, wantModel bool, kind QueryKind) Result {
 		atomic.AddInt64(&stats.Unknown, 1)
 	}
 	bumpBackend(res.Backend)
-	if dumpDir != "" && (d > 2*time.Second || res.Status == "unknown") {
+	if dumpDir != "" && (d > dumpThreshold || res.Status == "unknown") {
 		os.WriteFile(fmt.Sprintf("%s/q-%d-%s.smt2", dumpDir, time.Now().UnixNano(), res.Status), []byte(body.String()+"(check-sat)\n; "+s.where+"\n"), 0644)
 	}
 	if key != "" {
